@@ -76,6 +76,31 @@ CLAIMED = {
         "forked; on every feasible path it must agree with the real Tree.predict; refusals checked concretely.",
         "Trusted: the reader of the printed layout (written from the documented layout); thresholds concrete (0.0, negative, repeated).",
         "DESIGN.md §4 C19", "symbolic execution of the repository source (symx): symbolic query point forked through printed rules and Tree.predict (z3 feasibility)"),
+    "C06": (
+        "Bounded symbolic model checking on the real sparse-model methods with ARBITRARY symbolic weights: selection == rows with a "
+        "non-zero entry (all zero patterns forked); zero weight rows make the feature inert (identical prediction terms); one real "
+        "_update_weights from an arbitrary state equals the real prox of C05 with threshold alpha*optimiser.learning_rate (symbolic, "
+        "distinct from the constructor's rate; alpha=0 included), in place, and preserves 'zero skip row => zero first-layer row'; "
+        "whole-group thresholding; check_groups completion exhaustively over small feature sets.",
+        "Trusted: symx + z3; arbitrary pre-state (stronger than reachable); sparse-MLP wiring restricted to rows with non-zero skip "
+        "weights (C05's scope); shapes d<=3, K,h<=2; exact reals.",
+        "DESIGN.md §4 C06", "symbolic execution of the repository source (symx): symbolic data/weights/indices, decisions forked with z3 feasibility, post-conditions by term identity or solver query"),
+    "C10": (
+        "Exhaustive symbolic exploration of batching: the real fit/_batchify (plain, mlcl-decorated, categorical) under the stubbed "
+        "environment with EVERY permutation the RNG may return (all n! per epoch, n<=3; n=4 thorough) x every batch_size in 1..n+1 "
+        "and None x max_iter 1,2, on symbolic data and a symbolic affinity: partition per epoch, size bound, affinity block equal "
+        "TERM BY TERM to A[rows][:,rows], step count, n_iter_, recorded mlcl indices.",
+        "Trusted: the stub environment (identity validation, recorder optimiser, uninterpreted pairwise kernel, stubbed GEMINI values); "
+        "n<=3 (4 thorough); alignment is identity of symbolic terms so numeric coincidence cannot mask a misalignment.",
+        "DESIGN.md §4 C10", "symbolic execution of the repository source (symx): symbolic data/weights/indices, decisions forked with z3 feasibility, post-conditions by term identity or solver query"),
+    "C15": (
+        "Bounded symbolic model checking of Douglas: every feature mask of d<=3 through the real _init_params/_infer (masked columns "
+        "replaced by fresh symbols: identical terms), leaf count, probability rows of every binning / merged leaf for symbolic "
+        "temperature, arg-max bin == #cuts below the value for every ordering of symbolic cut points (exp monotonicity instances), "
+        "and the real find_active_points on symbolic cuts and data against its definition on every path.",
+        "Trusted: symx + z3; softmax replaced by its exp contract, exp strictly monotone; the T->0 limit statement is taken as "
+        "'arg-max bin', n_cuts<=3 (4 thorough), <=3 data rows.",
+        "DESIGN.md §4 C15", None),
 }
 
 NOT_APPLICABLE = {
